@@ -2,7 +2,7 @@
 //! `scylla::verif::*`, compiled with `--cfg scylla_verif`) against small
 //! executable reference models. Implements /verif/sim/ENGINE_CONTRACT.md.
 //!
-//!   hsim run --property C15d|C13d|C02d|C19p --tier quick|thorough --seed N --jobs N --out FILE
+//!   hsim run --property C15d|C13d|C02d|C19p|C19u --tier quick|thorough --seed N --jobs N --out FILE
 //!   hsim replay FILE [--trace]
 //!
 //! Environment: `VERIF_DIR` (default /verif) - replay files go to
@@ -20,6 +20,7 @@ mod c02;
 mod c13;
 mod c15;
 mod c19;
+mod c19u;
 mod case;
 mod rng;
 mod tape;
@@ -41,6 +42,7 @@ enum Part {
     C13d,
     C02d,
     C19p,
+    C19u,
 }
 
 impl Part {
@@ -50,6 +52,7 @@ impl Part {
             "C13d" => Some(Part::C13d),
             "C02d" => Some(Part::C02d),
             "C19p" => Some(Part::C19p),
+            "C19u" => Some(Part::C19u),
             _ => None,
         }
     }
@@ -59,6 +62,7 @@ impl Part {
             Part::C13d => "C13d",
             Part::C02d => "C02d",
             Part::C19p => "C19p",
+            Part::C19u => "C19u",
         }
     }
     fn property(&self) -> &'static str {
@@ -67,6 +71,7 @@ impl Part {
             Part::C13d => "C13",
             Part::C02d => "C02",
             Part::C19p => "C19",
+            Part::C19u => "C19",
         }
     }
     fn prefix(&self) -> &'static str {
@@ -75,6 +80,7 @@ impl Part {
             Part::C13d => "c13",
             Part::C02d => "c02",
             Part::C19p => "c19",
+            Part::C19u => "c19",
         }
     }
     fn forked_cases(&self) -> bool {
@@ -94,6 +100,9 @@ impl Part {
             Part::C19p => {
                 "distinct = distinct hashes of the step sequence (producer steps, consumer steps, injection sites); non-trivial = at least one id merged in and at least one receive attempt"
             }
+            Part::C19u => {
+                "distinct = distinct hashes of the operation sequence (full fetch / partial topology / hint / take); non-trivial = at least 2 merges, at least one of them into a value still pending"
+            }
         }
     }
     /// (requested cases, wall budget of the batch)
@@ -105,6 +114,7 @@ impl Part {
             Part::C13d => (400_000, 5_000_000),
             Part::C02d => (400_000, 3_500_000),
             Part::C19p => (24_000_000, 150_000_000),
+            Part::C19u => (4_000_000, 40_000_000),
         };
         match tier {
             Tier::Quick => (q, Duration::from_secs(40)),
@@ -167,6 +177,7 @@ fn run_case_inproc(part: Part, src: &TapeSrc, tier: Tier, trace: bool, want_desc
         Part::C13d => c13::run(&mut ctx),
         Part::C02d => c02::run(&mut ctx),
         Part::C19p => c19::run(&mut ctx),
+        Part::C19u => c19u::run(&mut ctx),
     }));
     if let Err(p) = r {
         if ctx.out.status == "ok" {
@@ -496,7 +507,7 @@ fn cmd_run(args: &[String]) -> i32 {
         i += 2;
     }
     let (Some(part), Some(out_path)) = (part, out_path) else {
-        eprintln!("hsim: --property C15d|C13d|C02d|C19p and --out are required");
+        eprintln!("hsim: --property C15d|C13d|C02d|C19p|C19u and --out are required");
         return 2;
     };
     let t0 = Instant::now();
@@ -794,7 +805,7 @@ fn main() {
         Some("replay") => cmd_replay(&args[1..]),
         _ => {
             eprintln!(
-                "usage: hsim run --property C15d|C13d|C02d|C19p --tier quick|thorough --seed N --jobs N --out FILE\n       hsim replay FILE [--trace]"
+                "usage: hsim run --property C15d|C13d|C02d|C19p|C19u --tier quick|thorough --seed N --jobs N --out FILE\n       hsim replay FILE [--trace]"
             );
             2
         }
